@@ -273,7 +273,7 @@ SGal3TangentBase<_Derived>::ljac() const {
   // Block E
   // Note - we use here a temporary block to hold E
   Jl.template block<3, 3>(0, 6) = I33(Scalar(0.5));
-  if (theta_sq > Constants<Scalar>::eps) {
+  if (theta_sq * theta_sq > Constants<Scalar>::eps) {
     const Scalar A = (theta - sin_t) / theta_sq / theta;
     const Scalar B = (
       theta_sq + Scalar(2) * cos_t - Scalar(2)
@@ -281,7 +281,7 @@ SGal3TangentBase<_Derived>::ljac() const {
 
     Jl.template block<3, 3>(0, 6).noalias() += A * W + B * WW;
   } else {
-    Jl.template block<3, 3>(0, 6).noalias() += Scalar(1. / 6.) * W;
+    Jl.template block<3, 3>(0, 6).noalias() += Scalar(1. / 6.) * W + Scalar(1. / 24.) * WW;
   }
 
   // Block E * nu
@@ -445,9 +445,11 @@ void SGal3TangentBase<_Derived>::fillE(
   E.noalias() = I(Scalar(0.5), Scalar(0.5), Scalar(0.5)).toDenseMatrix();
 
   // small angle approx.
-  if (theta_sq < Constants<Scalar>::eps) {
-    // first-order term of the series 1/2 I + 1/6 W + 1/24 W^2 + ...
-    E.noalias() += Scalar(1. / 6.) * so3.hat();
+  if (theta_sq * theta_sq < Constants<Scalar>::eps) {
+    // series 1/2 I + 1/6 W + 1/24 W^2 + ... ; (theta - sin theta)/theta^3 below has only a few
+    // correct digits for smaller angles and, unlike in SO3's Jacobians, multiplies W, not W^2
+    const typename SO3Tangent<Scalar>::LieAlg W = so3.hat();
+    E.noalias() += Scalar(1. / 6.) * W + Scalar(1. / 24.) * W * W;
     return;
   }
 
